@@ -9,7 +9,7 @@ import os
 from vp.engine import assume, check, cover, note, obligation, pick
 from vp.memenv import Program, Sandbox, concrete_region
 
-STYLES = ["plain", "batch", "partial", "twice", "failing"]
+STYLES = ["plain", "batch", "partial", "twice", "failing", "batch-dup"]
 STORES = ["memory", "fs", "fs+cache:1"]
 
 
@@ -28,6 +28,8 @@ def gen_source(parents, styles, resource_root):
                 body.append("    n%d(x)\n" % j)
             elif st == "batch":
                 body.append("    n%d.call_batch([{'x': x}, {'x': x + 1}])\n" % j)
+            elif st == "batch-dup":
+                body.append("    n%d.call_batch([{'x': x}, {'x': x + 1}, {'x': x}])\n" % j)
             elif st == "partial":
                 body.append("    n%d.partial(x)()\n" % j)
             elif st == "twice":
@@ -53,6 +55,10 @@ def expected_invocations(i, parents, styles, x):
         elif st == "batch":
             out.append(("n%d" % j, {"x": x}))
             out.append(("n%d" % j, {"x": x + 1}))
+        elif st == "batch-dup":
+            out.append(("n%d" % j, {"x": x}))
+            out.append(("n%d" % j, {"x": x + 1}))
+            out.append(("n%d" % j, {"x": x}))
         elif st == "partial":
             out.append(("n%d" % j, {"x": x}))
         elif st == "twice":
@@ -159,8 +165,8 @@ def _shape(n, p2, p3):
     "C10.trees",
     covers=("some-subcalls-memoized-before", "all-subcalls-memoized-before", "batched-subcall", "failing-subcall", "repeated-subcall",
             "depth3", "resource"),
-    split={"store": [0, 1, 2], "s1": [0, 1, 2, 3, 4]},
-    bounds="call trees over N=4 nodes (all 6 parent arrays), each sub-call made plain / through call_batch (2 elements) / through partial / "
+    split={"store": [0, 1, 2], "s1": [0, 1, 2, 3, 4, 5]},
+    bounds="call trees over N=4 nodes (all 6 parent arrays), each sub-call made plain / through call_batch (2 distinct elements, or 3 with a repeated one) / through partial / "
            "twice / failing-and-caught, root obtains a file resource or not, root invoked singly or as a batch, x every subset (8) of sub-calls "
            "memoized beforehand; 3 stores. Quick tier: the style of node 3 is tied to node 2's (thorough: free)",
     variables="choice: parents (2), styles (3), resource bit, root batch bit, pre-memoized mask",
@@ -180,7 +186,7 @@ def trees(p2: int, p3: int, s1: int, s2: int, s3: int, res: bool, root_batch: bo
     rb = True if root_batch else False
     styles = [None, s1, s2, s3]
     with concrete_region():
-        if "batch" in [STYLES[s] for s in styles[1:]]:
+        if "batch" in [STYLES[s] for s in styles[1:]] or "batch-dup" in [STYLES[s] for s in styles[1:]]:
             cover("batched-subcall")
         if "failing" in [STYLES[s] for s in styles[1:]]:
             cover("failing-subcall")
@@ -191,3 +197,153 @@ def trees(p2: int, p3: int, s1: int, s2: int, s3: int, res: bool, root_batch: bo
         if rr:
             cover("resource")
         _scenario(parents, styles, rr, premem, rb, STORES[store])
+
+
+# ------------------------------------------------------------------------------------------------
+# call GRAPHS (not trees): the same function reached several times with different sub-graphs, recursion, diamonds.
+# The oracle is the call tree the bodies themselves record (enter / exit events) on the fully cold run.
+# ------------------------------------------------------------------------------------------------
+
+GRAPHS = {
+    # root calls mid(0) and mid(1); mid picks a different callee per argument
+    "same-function-different-subgraphs": (
+        "@m.memento_function\ndef left(x):\n    _trace.append(('enter', 'left', x)); _trace.append(('exit',)); return 1\n"
+        "@m.memento_function\ndef right(x):\n    _trace.append(('enter', 'right', x)); _trace.append(('exit',)); return 2\n"
+        "@m.memento_function\ndef mid(x):\n    _trace.append(('enter', 'mid', x))\n    r = left(x) if x == 0 else right(x)\n"
+        "    _trace.append(('exit',)); return r\n"
+        "@m.memento_function\ndef root(x):\n    _trace.append(('enter', 'root', x))\n    r = mid(0) + mid(1)\n    _trace.append(('exit',)); return r\n",
+        ["mid:0", "mid:1", "left:0", "right:1"]),
+    # recursion reaching a helper only at the bottom
+    "recursion": (
+        "@m.memento_function\ndef base(x):\n    _trace.append(('enter', 'base', x)); _trace.append(('exit',)); return 0\n"
+        "@m.memento_function\ndef root(x):\n    _trace.append(('enter', 'root', x))\n    r = base(0) if x == 0 else root(x - 1) + 1\n"
+        "    _trace.append(('exit',)); return r\n",
+        ["root:1", "root:0", "base:0"]),
+    # diamond: two callers share a callee
+    "diamond": (
+        "@m.memento_function\ndef c(x):\n    _trace.append(('enter', 'c', x)); _trace.append(('exit',)); return 3\n"
+        "@m.memento_function\ndef a(x):\n    _trace.append(('enter', 'a', x)); r = c(x); _trace.append(('exit',)); return r\n"
+        "@m.memento_function\ndef b(x):\n    _trace.append(('enter', 'b', x)); r = c(x) + c(x + 1); _trace.append(('exit',)); return r\n"
+        "@m.memento_function\ndef root(x):\n    _trace.append(('enter', 'root', x))\n    r = a(x) + b(x)\n    _trace.append(('exit',)); return r\n",
+        ["a:2", "b:2", "c:2", "c:3"]),
+    # fan-out over one function through a batch with repeated and distinct arguments, sub-graphs differing per argument
+    "batch-fanout": (
+        "@m.memento_function\ndef left(x):\n    _trace.append(('enter', 'left', x)); _trace.append(('exit',)); return 1\n"
+        "@m.memento_function\ndef right(x):\n    _trace.append(('enter', 'right', x)); _trace.append(('exit',)); return 2\n"
+        "@m.memento_function\ndef mid(x):\n    _trace.append(('enter', 'mid', x))\n    r = left(x) if x == 0 else right(x)\n"
+        "    _trace.append(('exit',)); return r\n"
+        "@m.memento_function\ndef root(x):\n    _trace.append(('enter', 'root', x))\n"
+        "    r = sum(mid.call_batch([{'x': 0}, {'x': 1}, {'x': 0}]))\n    _trace.append(('exit',)); return r\n",
+        ["mid:0", "mid:1", "left:0", "right:1"]),
+}
+GRAPH_NAMES = sorted(GRAPHS)
+ROOT_ARG = {"same-function-different-subgraphs": 5, "recursion": 2, "diamond": 2, "batch-fanout": 5}
+
+
+def _call_tree(events):
+    """enter/exit log -> list of (name, x, [children...]) trees (bodies that actually ran)."""
+    stack = [("<top>", None, [])]
+    for e in events:
+        if e[0] == "enter":
+            node = (e[1], e[2], [])
+            stack[-1][2].append(node)
+            stack.append(node)
+        else:
+            stack.pop()
+    return stack[0][2]
+
+
+def _functions_below(node, known):
+    """transitive function names of a body that ran; a child whose body did not run again (already memoized within the
+    same run) contributes what it contributed when it did run: `known` maps (name, x) -> set."""
+    out = {node[0]}
+    for ch in node[2]:
+        out |= _functions_below(ch, known)
+    known[(node[0], node[1])] = out
+    return out
+
+
+@obligation(
+    "C10.graphs",
+    covers=("some-subcalls-memoized-before", "all-subcalls-memoized-before", "recursion", "diamond", "batch-fanout",
+            "same-function-different-subgraphs"),
+    split={"g": list(range(len(GRAPH_NAMES))), "store": [0, 1, 2]},
+    bounds="4 call graphs that are not trees (one function called with two arguments whose sub-graphs differ; recursion reaching a helper "
+           "only at the bottom; a diamond; a batch fan-out with repeated and distinct arguments) x every subset of the (up to 4) distinct "
+           "sub-calls memoized beforehand x root invoked singly or as a batch x 3 stores; oracle = the call tree recorded by the bodies",
+    variables="choice: premem mask, root batch bit (graph, store partitioned)",
+    budget_s={"quick": 170, "thorough": 600},
+    choice_vars=4,
+)
+def graphs(g: int, store: int, premem: int, root_batch: bool):
+    premem = pick(premem, 16)
+    rb = True if root_batch else False
+    with concrete_region():
+        name = GRAPH_NAMES[g]
+        cover(name)
+        src, subcalls = GRAPHS[name]
+        assume(premem < (1 << len(subcalls)))
+        sb = Sandbox(kinds=STORES[store])
+        prog = Program("vpc10g")
+        try:
+            prog.exec(src)
+            root = prog.root
+            arg = ROOT_ARG[name]
+
+            def run_root():
+                if rb:
+                    return root.call_batch([{"x": arg}])[0]
+                return root(arg)
+
+            run_root()
+            events = list(prog.trace)
+            trees_ = _call_tree(events)
+            check("oracle:one-root-body", len(trees_) == 1 and trees_[0][0] == "root", trees_)
+            known = {}
+            exp_deps_names = _functions_below(trees_[0], known)
+            cold = record(root.memento(arg))
+            # direct invocations: every call the root body made, in order. Calls whose body did not run a second time
+            # (same arguments again) are still invocations: derive them from the source-level call list instead
+            exp_direct = {"same-function-different-subgraphs": [("mid", {"x": 0}), ("mid", {"x": 1})],
+                          "recursion": [("root", {"x": 1})],
+                          "diamond": [("a", {"x": 2}), ("b", {"x": 2})],
+                          "batch-fanout": [("mid", {"x": 0}), ("mid", {"x": 1}), ("mid", {"x": 0})]}[name]
+            check("cold-invocations-are-exactly-the-direct-calls-in-order", [(a, b) for (a, b, _h) in cold[0]] == exp_direct, (cold[0], exp_direct))
+            got_names = sorted(q.split(":")[-1].split("#")[0] for q in cold[2])
+            check("cold-dependencies-are-exactly-the-functions-reached", got_names == sorted(exp_deps_names), (got_names, sorted(exp_deps_names)))
+            # inner records too
+            for sc_ in subcalls:
+                fn_name, x = sc_.split(":")
+                mem = getattr(prog, fn_name).memento(int(x))
+                check("inner-memento-exists", mem is not None, sc_)
+                inner = sorted(q.split(":")[-1].split("#")[0] for q in record(mem)[2])
+                want = sorted(known.get((fn_name, int(x)), {fn_name}))
+                check("inner-dependencies", inner == want, (sc_, inner, want))
+            # forget the root call and every sub-call not in the subset, run again
+            root.forget(arg)
+            kept = 0
+            for i, sc_ in enumerate(subcalls):
+                if premem & (1 << i):
+                    kept += 1
+                    continue
+                fn_name, x = sc_.split(":")
+                getattr(prog, fn_name).forget(int(x))
+            if kept:
+                cover("some-subcalls-memoized-before")
+            if kept == len(subcalls):
+                cover("all-subcalls-memoized-before")
+            run_root()
+            warm = record(root.memento(arg))
+            check("invocations-independent-of-what-was-memoized", warm[0] == cold[0], (warm[0], cold[0]))
+            check("dependencies-independent-of-what-was-memoized", warm[2] == cold[2], (warm[2], cold[2]))
+            for sc_ in subcalls:
+                fn_name, x = sc_.split(":")
+                mem = getattr(prog, fn_name).memento(int(x))
+                if mem is None:
+                    continue  # forgotten, and not recomputed because its caller was served from the store
+                inner = sorted(q.split(":")[-1].split("#")[0] for q in record(mem)[2])
+                want = sorted(known.get((fn_name, int(x)), {fn_name}))
+                check("inner-dependencies-after-rerun", inner == want, (sc_, inner, want))
+        finally:
+            prog.close()
+            sb.close()
